@@ -45,6 +45,8 @@ func NewExecCtx(errs ZogIssues, fmter IssueFmtFunc) *ExecCtx {
 	c := ExecCtxPool.Get().(*ExecCtx)
 	c.Fmter = fmter
 	c.Errors = errs
+	// the context is recycled, values from a previous execution must not be visible in this one
+	clear(c.m)
 	return c
 }
 
